@@ -146,6 +146,7 @@ def resName : R → String
   | .error e => errName e
 
 def routeKeys : List String := ["kw", "inst", "upd", "cls"]
+def aliasKeys : List String := ["inst", "upd", "cls"]
 
 def jSlots (c : Cfg) : Json :=
   let hasLen := match c.ptype with
@@ -194,6 +195,7 @@ def handle (req : Json) : Except String Json := do
   let built := construct args (ctxOf rxDefault)
   let specC := specCfg args
   let mut modelVals : List Json := []
+  let mut modelAlias : List Json := []
   let mut branches : List String := []
   let mut specImpl : Option String := judgeCtor args (ctxOf rxDefault) implCtor |>.map (s!"constructor: {·}")
   let mut specModel : Option String :=
@@ -261,10 +263,58 @@ def handle (req : Json) : Except String Json := do
         if specModel.isNone then
           specModel := (judgeAssign sc x v out (optStr rb)).map (s!"value #{i}: {·}")
       i := i + 1
+    -- aliasing stream: assign a container, mutate the *held* object in place, assign the identical
+    -- object again.  Validity is a matter of the content at the time of each assignment.
+    let aliasCases := match case.getObjVal? "alias" with
+      | .ok (.arr a) => a.toList
+      | _ => []
+    let implAlias := match impl.getObjVal? "alias" with
+      | .ok (.arr a) => a.toList
+      | _ => []
+    let x0 := ctxOf false
+    let mut j := 0
+    for ac in aliasCases do
+      let start ← parseVal (← ac.getObjVal? "start")
+      let after ← parseVal (← ac.getObjVal? "after")
+      let ia := implAlias.getD j Json.null
+      let r1 := validate c x0 start
+      let r2 := validate c x0 after
+      let entry : Json := match r1 with
+        | .error e => Json.arr #[Json.str (errName e), Json.null, Json.null]
+        | .ok _ => Json.arr #[Json.str "ok", Json.str (resName r2),
+            match r2 with | .ok _ => Json.str (expectedReadback c after) | .error _ => Json.null]
+      modelAlias := modelAlias ++ [Json.mkObj (aliasKeys.map fun k => (k, entry))]
+      let b := s!"alias:{resName r1}:{match r1 with | .ok _ => resName r2 | .error _ => "-"}"
+      if !branches.contains b then branches := b :: branches
+      match specC with
+      | none => pure ()
+      | some sc =>
+        if !ctorBlocked then
+          for k in aliasKeys do
+            match (ia.getObjVal? k).toOption.getD Json.null with
+            | .arr a =>
+              if a.size == 3 then
+                checked := checked + 1
+                let o1 := (optStr a[0]!).getD "?"
+                if specImpl.isNone then
+                  specImpl := (judgeAssign sc x0 start o1 (if o1 == "ok" then some "same" else none)).map
+                    (s!"alias #{j} route {k}, first assignment: {·}")
+                if specImpl.isNone && o1 == "ok" then
+                  specImpl := (judgeAssign sc x0 after ((optStr a[1]!).getD "?") (optStr a[2]!)).map
+                    (s!"alias #{j} route {k}, re-assignment of the held object after mutating it in place: {·}")
+            | _ => pure ()
+        if specModel.isNone then
+          match r1 with
+          | .ok _ => specModel := (judgeAssign sc x0 after (resName r2)
+              (match r2 with | .ok _ => some (expectedReadback c after) | .error _ => none)).map (s!"alias #{j}: {·}")
+          | .error _ => pure ()
+      j := j + 1
   let optJ : Option String → Json := fun | some s => Json.str s | none => Json.null
   let model := match built with
-    | .ok c => Json.mkObj [("ctor", Json.str "ok"), ("slots", jSlots c), ("vals", Json.arr modelVals.toArray)]
-    | .error e => Json.mkObj [("ctor", Json.str (errName e)), ("slots", Json.null), ("vals", Json.arr #[])]
+    | .ok c => Json.mkObj [("ctor", Json.str "ok"), ("slots", jSlots c), ("vals", Json.arr modelVals.toArray),
+                           ("alias", Json.arr modelAlias.toArray)]
+    | .error e => Json.mkObj [("ctor", Json.str (errName e)), ("slots", Json.null), ("vals", Json.arr #[]),
+                              ("alias", Json.arr #[])]
   return Json.mkObj [
     ("model", model), ("applicable", Json.bool true), ("checked_steps", toJson checked),
     ("spec_impl", optJ specImpl), ("spec_model", optJ specModel),
